@@ -19,6 +19,7 @@ type zzBeh struct {
 	explicit bool
 	status   int
 	hdrs     int // number of headers set before anything is sent (0..2)
+	mid      int // between two writes: 0 nothing, 1 delete Content-Length, 2 overwrite Content-Length
 }
 
 func (b *zzBeh) run(w http.ResponseWriter) {
@@ -34,6 +35,14 @@ func (b *zzBeh) run(w http.ResponseWriter) {
 	}
 	for i := 0; i < b.nwrites; i++ {
 		w.Write(zzv.Blob(b.sizes[i]))
+		if i+1 < b.nwrites { // a mutation of the length header that a later write must repair
+			switch b.mid {
+			case 1:
+				w.Header().Del("Content-Length")
+			case 2:
+				w.Header().Set("Content-Length", "1")
+			}
+		}
 	}
 }
 
@@ -82,18 +91,23 @@ func ZZC08Head(n int) {
 		zzv.Assume(b.status >= 100 && b.status <= 599)
 	}
 	b.hdrs = zzv.Choice("hdrs", 3)
+	if b.nwrites > 1 && !b.explicit {
+		b.mid = zzv.Choice("mid", 3)
+	}
 	zzBehNow = b
 	path := "/g/" + zzv.Bytes("x", 2)
 
 	og := &zzObs{}
 	zzO = og
 	wg := newW()
+	wg.info = true
 	r.ServeHTTP(wg, zzReq("GET", path))
 	zzFinish(wg)
 
 	oh := &zzObs{}
 	zzO = oh
 	wh := newW()
+	wh.info = true
 	r.ServeHTTP(wh, zzReq("HEAD", path))
 	zzFinish(wh)
 	zzBehNow = nil
@@ -111,11 +125,15 @@ func ZZC08Head(n int) {
 	for _, k := range []string{"X-A", "X-B", "Allow", "Content-Type"} {
 		zzv.Assert(zzHdr(wh.sentHdr, k) == zzHdr(wg.sentHdr, k), "head:header-differs-from-GET")
 	}
-	if !b.explicit && b.nwrites > 0 {
+	// an informational status (1xx other than 101) is not the response header: the handler
+	// has still not sent the header itself
+	implicit := !b.explicit || (b.status <= 199 && b.status != 101)
+	zzv.Assert(wh.infos == wg.infos, "head:informational-responses-differ-from-GET")
+	if implicit && b.nwrites > 0 {
 		zzv.Cover("content-length")
 		zzv.Assert(zzHdr(wh.sentHdr, "Content-Length") == strconv.Itoa(total)+";", "head:content-length-is-not-the-number-of-bytes-written")
 	}
-	if !b.explicit && b.nwrites == 0 {
+	if implicit && b.nwrites == 0 {
 		zzv.Assert(zzHdr(wh.sentHdr, "Content-Length") == "", "head:content-length-without-a-body")
 	}
 }
